@@ -153,7 +153,7 @@ Definition rep_len (r : Z) : Z := if r =? 0 then 0 else if (r =? 1) || (r =? 2) 
 (* <kind>Qos::is_consistent, true = Ok(()) *)
 Definition hist_fits (q : eqos) : bool :=
   match q_hist q with
-  | Some depth => negb (usize_gt_length depth (q_mspi q))
+  | Some depth => negb ((depth =? 0) || usize_gt_length depth (q_mspi q))   (* KEEP_LAST(0) is refused *)
   | None => true
   end.
 Definition is_consistent (k : ekind) (q : eqos) : bool :=
@@ -251,6 +251,8 @@ Inductive ret : Type :=
 | REQ (q : eqos) | RGQ (q : gqos) | RPQ (q : pqos)    (* get_qos *)
 | RBurn (done : Z) (r : ret)    (* burn ops: iterations done, first failure or RUnit *)
 | RBad                          (* the scenario names a proxy that does not exist *)
+| RAnn (l : list Z)             (* discovered QoS of a matched remote endpoint (observed only; see WMpd) *)
+| RAny                          (* the model makes no prediction (discovery is not modelled here) *)
 | RPanic.                       (* the worker task panicked: the participant factory is dead *)
 
 Definition E_PRECONDITION : Z := 4.
@@ -724,6 +726,10 @@ Inductive wop : Type :=
 | WEn (k : pkind) (i : Z)
 | WH (k : pkind) (i : Z)
 | WSt (sd : side) (i : Z)
+| WKeepnet                     (* harness: keep the in-flight datagrams from now on *)
+| WSettle                      (* harness: deliver everything, let 600 ms pass *)
+| WMpd (r w : Z)               (* reader r: get_matched_publication_data(writer w) -- not predicted *)
+| WMsd (w r : Z)               (* writer w: get_matched_subscription_data(reader r) -- not predicted *)
 | WBurnG (sd : side) (p : Z) (n : Z)
 | WBurnT (p : Z) (n : Z)
 | WBurnE (sd : side) (g t : Z) (n : Z).
@@ -914,6 +920,17 @@ Definition wstep (pr : profile) (w : world) (o : wop) : world * ret :=
   | WSt sd i =>
       match nthz (x_eps sd w) i with
       | Some (ph, gh, eh) => mail pr w (FStatusEp sd ph gh eh) | None => (w, RBad) end
+  | WKeepnet | WSettle => (w, RUnit)
+  | WMpd r wi =>
+      match nthz (x_rs w) r, nthz (x_ws w) wi with
+      | Some _, Some _ => (w, RAny)
+      | _, _ => (w, RBad)
+      end
+  | WMsd wi r =>
+      match nthz (x_ws w) wi, nthz (x_rs w) r with
+      | Some _, Some _ => (w, RAny)
+      | _, _ => (w, RBad)
+      end
   | WBurnG sd p n =>
       match nthz (x_parts w) p with
       | None => (w, RBad)
@@ -966,8 +983,10 @@ Fixpoint wfinal (pr : profile) (w : world) (ops : list wop) : world :=
   end.
 
 (* ------------------------------------------------------------------ result comparison *)
+(* a = what the model predicts, b = what was observed *)
 Fixpoint ret_eqb (a b : ret) : bool :=
   match a, b with
+  | RAny, _ => true
   | RUnit, RUnit => true
   | RHandle x, RHandle y => heqb x y
   | RErr x, RErr y => x =? y
